@@ -7,7 +7,7 @@ ASSUMPTIONS = ['group keys over strings incl. "" and non-ASCII, numbers, null, a
 TRUSTED = ['IndexMap keeps insertion order (modelled as an association list)']
 
 def run(ctx):
-    rnd = ctx['rnd']; n = 250 if ctx['tier'] == 'quick' else 10000
+    rnd = ctx['rnd']; n = 2000 if ctx['tier'] == 'quick' else 10000
     cases = []; meta = []; filed = []
     for i in range(n):
         cfg = gen.pipeline_cfg(rnd, allow_group=False)
